@@ -209,3 +209,133 @@ Definition rel_vector_spec (ltr : bool) (offs : oq * oq * oq * oq) (v : Q * Q) :
   (t = None -> bo = None -> snd v == 0) /\
   (forall bv, t = None -> bo = Some bv -> snd v == - bv) /\
   (forall tv, t = Some tv -> snd v == tv).
+
+(* ======================================================================================================
+   Decidable specifications and judges for the correspondence streams.
+   bit 0: model <> implementation ; bit 1: the implementation's output violates the specification. *)
+Definition mask (same spec_ok : bool) : nat := ((if same then 0 else 1) + (if spec_ok then 0 else 2))%nat.
+Definition impl (a b : bool) : bool := negb a || b.
+Definition positive_shapes (shapes : list shape) : bool := forallb (fun s => Qlt_b 0 (s_h s)) shapes.
+Definition dflt_shape := mk_shape true 0 0 0 0.
+
+Definition no_room_at_b (shapes : list shape) (l0 r0 bw bh y : Q) : bool :=
+  let cs := filter (collides y bh) shapes in
+  match cs with [] => false | _ => Qlt_b (band_right cs r0 - band_left cs l0) bw end.
+
+(* the CSS 2.1 9.5.1 rules for one float placed at (x, y) among the floats `shapes` placed before it *)
+Definition float_spec_b (shapes : list shape) (cbx cbw : Q) (b : fbox) (x y : Q) : bool :=
+  let mw := margin_width b in
+  let mh := margin_height b in
+  let regular := positive_shapes shapes && Qlt_b 0 mh && negb (Qeq_bool (f_bh b) 0) in
+  let start := match shapes with [] => f_py b | _ => Qmax (f_py b) (s_y (last shapes dflt_shape)) end in
+  impl regular
+    ((* rules 2, 3, 7: no overlap with an earlier float *)
+     forallb (fun s => negb (overlaps_b x y mw mh s)) shapes &&
+     (* rules 4, 5, 6: not above its start nor above the float placed before it *)
+     Qle_bool start y &&
+     (* rule 1: inside the containing block when it fits *)
+     impl (Qle_bool mw cbw) (Qle_bool cbx x && Qle_bool (x + mw) (cbx + cbw)) &&
+     (* rule 8: as high as possible: no room at the start nor at any bottom edge passed on the way *)
+     forallb (fun y' => impl (Qle_bool start y' && Qlt_b y' y) (no_room_at_b shapes cbx (cbx + cbw) mw mh y'))
+             (start :: map s_bottom shapes) &&
+     (* rule 9: as far to its side as possible *)
+     match f_kind b with
+     | FloatRight => Qeq_bool (x + mw) (cbx + cbw) ||
+                     existsb (fun s => negb (s_left s) && collides y mh s && Qeq_bool (x + mw) (s_x s)) shapes
+     | _ => Qeq_bool x cbx ||
+            existsb (fun s => s_left s && collides y mh s && Qeq_bool x (s_x s + s_w s)) shapes
+     end).
+
+Definition ffp_case := (list shape * (Q * Q) * bool * fbox * (Q * Q))%type.
+Definition ffp_judge (c : ffp_case) : nat :=
+  let '(shapes, (cbx, cbw), rtl, b, (ox, oy)) := c in
+  mask (match find_float_position (S (length shapes)) shapes cbx cbw rtl b with
+        | Some (x, y) => Qeq_bool x ox && Qeq_bool y oy
+        | None => false
+        end)
+       (float_spec_b shapes cbx cbw b ox oy).
+
+(* a sequence of floats: requests and the implementation's positions *)
+Definition fseq_case := (list (Q * Q * fbox) * list (Q * Q))%type.
+Fixpoint fseq_spec (shapes : list shape) (reqs : list (Q * Q * fbox)) (outs : list (Q * Q)) : bool :=
+  match reqs, outs with
+  | [], [] => true
+  | (cbx, cbw, b) :: reqs', (x, y) :: outs' =>
+      float_spec_b shapes cbx cbw b x y && fseq_spec (shapes ++ [shape_of b (x, y)]) reqs' outs'
+  | _, _ => false
+  end.
+Definition shape_eqb (a b : shape) : bool :=
+  Bool.eqb (s_left a) (s_left b) && Qeq_bool (s_x a) (s_x b) && Qeq_bool (s_y a) (s_y b) &&
+  Qeq_bool (s_w a) (s_w b) && Qeq_bool (s_h a) (s_h b).
+Fixpoint list_eqb {A} (eqb : A -> A -> bool) (a b : list A) : bool :=
+  match a, b with
+  | [], [] => true
+  | x :: a', y :: b' => eqb x y && list_eqb eqb a' b'
+  | _, _ => false
+  end.
+Fixpoint shapes_of (reqs : list (Q * Q * fbox)) (outs : list (Q * Q)) : list shape :=
+  match reqs, outs with
+  | (_, _, b) :: reqs', p :: outs' => shape_of b p :: shapes_of reqs' outs'
+  | _, _ => []
+  end.
+Definition fseq_judge (c : fseq_case) : nat :=
+  let '(reqs, outs) := c in
+  mask (match place_all [] reqs with
+        | Some out => list_eqb shape_eqb out (shapes_of reqs outs) && Nat.eqb (length outs) (length reqs)
+        | None => false
+        end)
+       (fseq_spec [] reqs outs).
+
+(* avoid_collisions(outer=False) *)
+Definition avc_case := (list shape * (Q * Q) * bool * fbox * (Q * Q * Q))%type.
+Definition avc_judge (c : avc_case) : nat :=
+  let '(shapes, (cbx, cbw), rtl, b, (ox, oy, oaw)) := c in
+  mask (match avoid_collisions (S (length shapes)) shapes cbx cbw rtl false b with
+        | Some (x, y, aw) => Qeq_bool x ox && Qeq_bool y oy && Qeq_bool aw oaw
+        | None => false
+        end)
+       (impl (positive_shapes shapes && Qle_bool 0 (f_bh b))
+          (Qle_bool (f_py b) oy &&
+           match f_kind b with
+           | LineBox =>
+               (* the band handed to the line: [x, x + available_width) in ltr, (x - available_width, x] in rtl *)
+               let bx := if rtl then ox + f_ml b - oaw else ox + f_ml b in
+               forallb (fun s => negb (overlaps_b bx (oy + f_mt b) oaw (f_bh b) s)) shapes
+           | _ => forallb (fun s => negb (overlaps_b (ox + f_ml b) (oy + f_mt b) (f_bw b) (f_bh b) s)) shapes
+           end)).
+
+(* get_clearance *)
+Definition oq_eqb (a b : oq) : bool :=
+  match a, b with Some x, Some y => Qeq_bool x y | None, None => true | _, _ => false end.
+Definition clr_case := (list shape * clear_t * Q * oq)%type.
+Definition clr_judge (c : clr_case) : nat :=
+  let '(shapes, cl, hyp, out) := c in
+  mask (oq_eqb (get_clearance shapes cl hyp) out)
+       (match out with
+        | None => forallb (fun s => impl (names cl s) (Qle_bool (s_bottom s) hyp)) shapes
+        | Some v => Qlt_b 0 v && forallb (fun s => impl (names cl s) (Qle_bool (s_bottom s) (hyp + v))) shapes &&
+                    existsb (fun s => names cl s && Qeq_bool (s_bottom s) (hyp + v)) shapes
+        end).
+
+(* relative_positioning: the tree before, the positions (pre-order) after *)
+Definition spec_vector (ltr : bool) (offs : oq * oq * oq * oq) : Q * Q :=
+  let '(l, r, t, bo) := offs in
+  ((if match l with None => true | _ => false end
+    then match r with Some rv => - rv | None => 0 end
+    else if match r with None => true | _ => false end then match l with Some lv => lv | None => 0 end
+    else if ltr then match l with Some lv => lv | None => 0 end else match r with Some rv => - rv | None => 0 end),
+   match t with Some tv => tv | None => match bo with Some bv => - bv | None => 0 end end).
+Definition pos_eqb (a b : Q * Q) : bool := Qeq_bool (fst a) (fst b) && Qeq_bool (snd a) (snd b).
+Definition rel_case := (rbox * list (Q * Q))%type.
+Definition rel_judge (c : rel_case) : nat :=
+  let '(b, out) := c in
+  mask (list_eqb pos_eqb (positions (relative_positioning b)) out)
+       (match b with
+        | RBox rel false ltr offs _ _ _ =>
+            let v := if rel then spec_vector ltr offs else (0, 0) in
+            list_eqb pos_eqb (map (fun p => (fst p + fst v, snd p + snd v)) (positions b)) out
+        | RBox rel true ltr offs x y _ =>
+            let v := if rel then spec_vector ltr offs else (0, 0) in
+            match out with p :: _ => pos_eqb p (x + fst v, y + snd v) | [] => false end &&
+            Nat.eqb (length out) (length (positions b))
+        end).
